@@ -26,7 +26,7 @@
 (* grain of allsorts' public entry point (`gpos::apply` applies the        *)
 (* lookups of a feature in lookup-list order, each lookup over the whole   *)
 (* run).  Where OpenType is silent or conformant engines differ the        *)
-(* operator takes the reading from a record D of named choices (Dev_*),    *)
+(* operator takes the reading from a record D of named choices (the Dev_ names), *)
 (* and the check accepts the result of any D.                              *)
 (***************************************************************************)
 EXTENDS GposLayoutCommon, Kern, TLC
@@ -55,7 +55,6 @@ PCurs(n, rtl, E, X) == [t |-> "C", i |-> n, ax |-> E.x, ay |-> E.y, bx |-> X.x, 
 PUnsupported == [t |-> "X", i |-> -1, ax |-> 0, ay |-> 0, bx |-> 0, by |-> 0, r |-> FALSE]
 
 FlagOf(L) == [flag |-> L.flag, mfs |-> L.mfs]
-Range(q) == {q[k] : k \in 1 .. Len(q)}
 
 InitInfos(gdef, in) ==
   [j \in 1 .. Len(in) |-> [g |-> in[j].g, lc |-> in[j].lc, lig |-> in[j].lig,
